@@ -85,6 +85,10 @@ def run(model, tier="quick"):
     from .base_refs import swap_sizing
     swap_sizing(res, model)      # the value algebra add_liquidity_by_value feeds with orientation-mapped values
     res.floor("obligations", len(res.obligations), 27)
+    from ..rules.orientx import orientation_rule
+    if "R-ORIENT" not in res.rules:
+        res.rules.append("R-ORIENT")
+    res.units["base_quote_pairs_consumed_outside_uniswap"] = orientation_rule(model, res)["sites"]
     from ..rules.fresh import fresh_rule
     if "R-FRESH" not in res.rules:
         res.rules.append("R-FRESH")
